@@ -50,7 +50,33 @@ def split_script(script):
     return head.strip(), [o.strip() for o in body.split(";") if o.strip()]
 
 
+MAX_EXPANDED_OPS = 50000
+
+
+def expand(items):
+    """`rep <k> ( op , op , ... )` -> k copies of the body, `$` = round number mod 251 (same rule as harness and driver)"""
+    out = []
+    for it in items:
+        w = it.split()
+        if not w:
+            continue
+        if w[0] != "rep":
+            out.append(it)
+            continue
+        if len(w) < 5 or w[2] != "(" or w[-1] != ")" or not w[1].isdigit():
+            return None
+        k = int(w[1])
+        body = [x.strip() for x in " ".join(w[3:-1]).split(",") if x.strip()]
+        if k > MAX_EXPANDED_OPS or len(out) + k * len(body) > MAX_EXPANDED_OPS:
+            return None
+        for i in range(k):
+            rnd = str(i % 251)
+            out.extend(part.replace("$", rnd) for part in body)
+    return out
+
+
 WRITE_INT = {"wi16": 2, "wi32": 4, "wi64": 8}
+HUGE = 1 << 47   # Grow(n) beyond this cannot be satisfied by any allocator: the documented ErrTooLarge panic is legitimate
 
 
 class C13(Spec):
@@ -73,13 +99,18 @@ class C13(Spec):
             "with seeks back into the consumed region followed by reads), and a small off-domain class with negative Next/Grow. "
             "Caller-memory discipline: one source scratch slice for all writes, overwritten with 0xEE after each Write (canary behind "
             "the chunk, chunk checksum), one destination scratch for all reads, overwritten after rendering: aliasing of caller "
-            "memory shows as wrong content. "
+            "memory shows as wrong content. LONG-RUNNING objects: a burst of >= 4 KiB, then k in {255,256,257,300,600,1100} rounds "
+            "of small write/read/tidy (variants with seek, grow, rbyte, reset) written as `rep k ( ... )`, observed after every op. "
+            "DOCUMENTED PANICS THEN CONTINUE: Grow(2^62 / 2^48+1 / maxInt-2cap+-1 / maxInt), Grow(-1), Next(-1) inside exhaustive, random and "
+            "skeleton sequences; the object is used further and the unread portion must be unchanged by the panicking op. TWO OBJECTS "
+            "in one case (`a:` / `b:` selectors, independent model instances): interleaved fill(large)/release/small-traffic life cycles. "
             "distinct by script line; non-trivial = some read returned data after a write")
     trusted_base = ["model of Go slices: (contents, len, cap, nil-ness); bytes between len and cap are not modelled (shown unobservable by "
                     "inspection: Write overwrites, Grow truncates them)",
-                    "64-bit int; allocation of 2*cap+n bytes succeeds whenever the ErrTooLarge test passes"]
+                    "64-bit int; Go runtime maxAlloc = 2^48 (linux/amd64): make([]byte, n) panics for n > 2^48 (-> ErrTooLarge), "
+                    "an allocation of at most 2^48 bytes is assumed to succeed"]
     assumptions = ["sizes passed to Next/Grow are non-negative (negative ones panic by design)",
-                   "C13_buffer_no_panic: 3 * (total bytes written or grown) <= maxInt excludes the ErrTooLarge branch",
+                   "C13_buffer_no_panic: 3 * (total bytes written or grown) <= maxAlloc (2^48) excludes the ErrTooLarge branches",
                    "single goroutine (the types are not concurrency-safe)"]
 
     # ------------------------------------------------------------------ oracle
@@ -91,17 +122,20 @@ class C13(Spec):
             return None
         if impl.startswith("<"):
             return ("crash-or-hang", "no observation: " + impl[:200])
+        ops = expand(ops)
         if not ops:
             return None
         obs = impl.split(" ; ")
-        W = bytearray()
-        r = 0
-        c = 0
+        objs = {}   # object selector -> [W, r, c]
         for i, op in enumerate(ops):
             w = op.split()
+            sel = "a"
+            if len(w[0]) == 2 and w[0][1] == ":" and w[0][0].islower():
+                sel, w = w[0][0], w[1:]
+                if not w:
+                    return None
+            W, r, c = objs.setdefault(sel, [bytearray(), 0, 0])
             name = w[0]
-            if kind == "buffer" and name in ("next", "grow") and int(w[1]) < 0:
-                return None  # outside the property's domain from here on
             where = "op %d (%s)" % (i + 1, op if len(op) < 60 else op[:57] + "...")
             if i >= len(obs):
                 return ("malformed", "no observation for " + where)
@@ -111,8 +145,15 @@ class C13(Spec):
             res, state = o.split(" / ", 1)
             res = res.split()
             st = state.split()
-            if res and res[0] == "panic":
-                return ("panic", "%s panicked" % where)
+            panicked = bool(res) and res[0] == "panic"
+            size = int(w[1]) if kind == "buffer" and name in ("next", "grow") else 0
+            if panicked:
+                # documented panics: Grow(n<0), Grow(n) that cannot be allocated (ErrTooLarge), Next(n<0) (slice bounds).
+                # They are outside the no-panic claim, but a caller may recover: the stream must be what it was.
+                if not ((name == "grow" and (size < 0 or size > HUGE)) or (name == "next" and size < 0)):
+                    return ("panic", "%s panicked" % where)
+            elif size < 0:
+                return None  # a negative size that did not panic: behaviour unspecified, outside the property's domain
             if "panic" in st:
                 return ("panic", "an observer (Bytes/Len/String/Seek/Cap) panicked after %s: %s" % (where, state))
             if "bad" in st:
@@ -131,7 +172,9 @@ class C13(Spec):
             unread = W[c:]
             seek_ok = None
             # ---- effect of the op on (W, c) and judgement of its result
-            if name in ("write", "wbyte", "wbool") or name in WRITE_INT:
+            if panicked:
+                pass  # no effect on the history or the cursor (the retained start may move: reset-if-empty precedes the panic)
+            elif name in ("write", "wbyte", "wbool") or name in WRITE_INT:
                 if name == "write":
                     p = payload(w[1])
                 elif name == "wbyte":
@@ -177,7 +220,7 @@ class C13(Spec):
                 else:
                     seek_ok = False
             elif name == "reset":
-                W = bytearray()
+                W = objs[sel][0] = bytearray()
                 r = c = 0
             elif name in ("tidy", "grow"):
                 pass
@@ -198,7 +241,11 @@ class C13(Spec):
                     return ("cursor-outside", "after %s the cursor is %d but only %d bytes precede the next unread byte in the retained data" % (
                         where, o_pos, c - r))
                 r = c - o_pos
+            objs[sel][1], objs[sel][2] = r, c
             exp = rd(W[c:])
+            if panicked and (o_bytes != exp or o_str != exp or o_len != len(W) - c):
+                return ("unread-changed-by-panicking-op", "%s panicked (a documented panic) and a caller that recovers finds the unread portion "
+                        "changed: Bytes() = %s, Len() = %d, but the bytes written and not yet consumed are %s" % (where, o_bytes, o_len, exp))
             if o_bytes != exp:
                 return ("unread-mismatch", "after %s Bytes() = %s but the bytes written and not yet consumed are %s" % (where, o_bytes, exp))
             if o_str != exp:
